@@ -184,6 +184,10 @@ impl Drop for Tk {
             _ => fault(format!("drop of corrupt element (obj {} id {})", self.obj, self.id)),
         }
         let _ = ST_FREE;
+        // a destructor run by the collection itself may be made to panic (never while already unwinding)
+        if crate::alloc::in_subject() && !std::thread::panicking() {
+            tick(Cb::Drop);
+        }
     }
 }
 impl Clone for Tk {
